@@ -190,7 +190,7 @@ pub fn run(ctx: &Ctx) -> Report {
     // check chains: open boards with queens and rooks on both sides and bare kings, searched to
     // depth 1-2; lines with five and more consecutive checks are common there, so the extension
     // is applied again and again on one line
-    let chains = ctx.tier.pick(2400, 40_000) / ctx.shard_count() as u32;
+    let chains = ctx.tier.pick(12_000, 120_000) / ctx.shard_count() as u32;
     run_prop(ctx, "c11-chains", chains, 200, (gen::synth_strategy(), 1u32..=2), &mut rep, |(ent, d), rep| {
         let mut e = Entropy::new(ent);
         let mut p = Pos::empty();
@@ -201,7 +201,7 @@ pub fn run(ctx: &Ctx) -> Report {
         p.sq[bk] = o::mk(false, o::K);
         for white in [true, false] {
             for _ in 0..1 + e.pick(3) {
-                let t = [o::Q, o::Q, o::R, o::R, o::B, o::N][e.pick(6)];
+                let t = [o::Q, o::Q, o::Q, o::R, o::R, o::B, o::N, o::Q][e.pick(8)];
                 let free: Vec<usize> = (0..64).filter(|&s| p.sq[s] == 0).collect();
                 p.sq[free[e.pick(free.len())]] = o::mk(white, t);
             }
